@@ -25,7 +25,7 @@ from mc.ref import fill as F
 
 ID = "C14"
 LEVEL = "exploration"
-BUDGET = {"quick": 300, "thorough": 900}
+BUDGET = {"quick": 300, "thorough": 3600}
 CHUNK = 2
 RULE = (
     "cases = blocks of consecutive indices of the product enumeration (index -> base-k digits -> symbols of the map, "
